@@ -32,6 +32,16 @@ pub open spec fn has_ident(attrs: Seq<Attribute>, name: Seq<char>, k: int) -> bo
 }
 pub open spec fn stmt_is_default(s: EnumStatement) -> bool { has_ident(s.attributes.0@, "default"@, s.attributes.0@.len() as int) }
 
+/// "represented as the declared integer base type": one of the built-in integer types
+pub open spec fn is_int_base(base: Type) -> bool {
+    match base {
+        Type::Raw(p) => p.0@.len() == 1 && ({
+            let n = p.0@[0].0@;
+            n == "u8"@ || n == "u16"@ || n == "u32"@ || n == "u64"@ || n == "u128"@ || n == "i8"@ || n == "i16"@ || n == "i32"@ || n == "i64"@ || n == "i128"@
+        }),
+        _ => false,
+    }
+}
 /// range of the built-in integer types (Rust reference); any other base type: no constraint stated
 pub open spec fn fits_base(base: Type, v: isize) -> bool {
     match base {
